@@ -187,7 +187,7 @@ int run(int a, int b) { int r = fill(a); r += score(b); r -= score(a); if (name[
 # Assembly units per target family (exercise the Earley assembler + relocations).
 ASM_CORPUS = {
     "x86_64": [("asm_basic", "section code\nstart: mov rax, rbx\nxor rcx, rbx\ninc rcx\njmp start\nl2: jz l2\nret\n")],
-    "arm": [("asm_basic", "section code\nstart: mov r4, 100\nadd r9, r7, r2\nsub r5, r6, r2\nb start\nl2: bne l2\nmov pc, lr\n")],
+    "arm": [("asm_basic", "section code\nstart: mov r4, 100\nadd r9, r7, r2\nldr r0, =l2\nsub r5, r6, r2\nldr r1, =start\nb start\nl2: bne l2\nmov pc, lr\n")],
     "riscv": [("asm_basic", "section code\nstart: addi x5, x4, 5\nmv x4, x5\nlui x6, 0x5\nl1: jal x1, start\nbeq x4, x5, l1\n")],
     "msp430": [("asm_basic", "section code\nstart: mov.w r14, r15\nmov.w #0x1337, r12\nadd.w r4, r5\njmp start\n")],
 }
